@@ -42,9 +42,10 @@ func Reach(starts []*ssa.BasicBlock, cut Cut) map[*ssa.BasicBlock]bool {
 		stack = stack[:len(stack)-1]
 		b := it.b
 		only := it.ctx.decide(b, nil)
+		ng := NilGuardEdges(b.Parent())
 		for i, s := range b.Succs {
 			e := Edge{b, i}
-			if cut[e] || (only >= 0 && only != i) {
+			if cut[e] || ng[e] || (only >= 0 && only != i) {
 				continue
 			}
 			nctx := it.ctx.enter(b, s)
@@ -182,9 +183,10 @@ func WalkFacts(b *ssa.BasicBlock, idx int, pred *ssa.BasicBlock, cut Cut, facts 
 			continue
 		}
 		only := it.ctx.decide(it.b, facts)
+		ng := NilGuardEdges(it.b.Parent())
 		for i, s := range it.b.Succs {
 			e := Edge{it.b, i}
-			if cut[e] || (only >= 0 && only != i) {
+			if cut[e] || ng[e] || (only >= 0 && only != i) {
 				continue
 			}
 			nctx := it.ctx.enter(it.b, s)
@@ -705,4 +707,220 @@ func edgeDominatesRaw(fn *ssa.Function, e Edge, x *ssa.BasicBlock) bool {
 		}
 	}
 	return !seen[x]
+}
+
+// ---- "cannot happen" guard clauses ----
+
+var nilGuardCache = map[*ssa.Function]Cut{}
+
+// DisableNilGuards switches the pruning of NilGuardEdges off (self-test).
+var DisableNilGuards bool
+
+// NilGuardEdges returns the edges taken when a value that the code around it
+// treats as always present - a parameter, an element of a slice being ranged
+// over, the result of a call - is found to be nil, where all that happens on
+// that edge is logging / building an error value before the function returns
+// or the loop goes on to its next element ("defensive" guard clauses: `if sp
+// == nil { log.Warn(..); return }`, `if hdr == nil { continue }`). The
+// explorations of this package do not follow these edges: what a rule says
+// about "every path" is said about the paths on which the inputs exist, which
+// is what the code said before the guard was there (it dereferenced them).
+func NilGuardEdges(fn *ssa.Function) Cut {
+	if DisableNilGuards || fn == nil {
+		return nil
+	}
+	if c, ok := nilGuardCache[fn]; ok {
+		return c
+	}
+	cut := Cut{}
+	nilGuardCache[fn] = cut
+	source := func(v ssa.Value) bool {
+		for i := 0; i < 4; i++ {
+			switch x := v.(type) {
+			case *ssa.ChangeType:
+				v = x.X
+				continue
+			case *ssa.ChangeInterface:
+				v = x.X
+				continue
+			}
+			break
+		}
+		switch x := v.(type) {
+		case *ssa.Parameter:
+			return true
+		case *ssa.Call:
+			return true
+		case *ssa.Extract:
+			_, isCall := x.Tuple.(*ssa.Call)
+			if isCall {
+				return true
+			}
+			// element delivered by a range over a slice / map
+			_, isNext := x.Tuple.(*ssa.Next)
+			return isNext
+		case *ssa.UnOp:
+			if x.Op != token.MUL {
+				return false
+			}
+			switch a := x.X.(type) {
+			case *ssa.IndexAddr:
+				return true // s[i]
+			case *ssa.Alloc:
+				// a parameter spilled to a cell and never written again
+				sts := StoresTo(a)
+				if len(sts) != 1 {
+					return false
+				}
+				_, isP := sts[0].Val.(*ssa.Parameter)
+				return isP
+			}
+		case *ssa.Index, *ssa.Lookup:
+			return true
+		}
+		return false
+	}
+	var allNilTests func(s *ssa.BasicBlock) bool
+	benign := func(b *ssa.BasicBlock) bool {
+		for _, in := range b.Instrs {
+			switch x := in.(type) {
+			case *ssa.Store:
+				// only into memory made right here (the argument array of a
+				// variadic log call)
+				root := x.Addr
+				for {
+					if ia, ok := root.(*ssa.IndexAddr); ok {
+						root = ia.X
+						continue
+					}
+					if fa, ok := root.(*ssa.FieldAddr); ok {
+						root = fa.X
+						continue
+					}
+					break
+				}
+				al, ok := root.(*ssa.Alloc)
+				if !ok || al.Block() != b {
+					return false
+				}
+			case *ssa.Call:
+				cc := x.Common()
+				if cc.IsInvoke() {
+					if n, ok := cc.Value.Type().(*types.Named); ok && n.Obj().Name() == "Logger" && n.Obj().Pkg() != nil && n.Obj().Pkg().Name() == "btclog" {
+						continue
+					}
+					if cc.Method.Name() == "Error" || cc.Method.Name() == "String" {
+						continue
+					}
+					return false
+				}
+				if f := cc.StaticCallee(); f != nil && f.Pkg != nil {
+					switch f.Pkg.Pkg.Path() + "." + f.Name() {
+					case "fmt.Errorf", "fmt.Sprintf", "errors.New", "fmt.Sprint":
+						continue
+					}
+				}
+				if bi, ok := cc.Value.(*ssa.Builtin); ok && (bi.Name() == "len" || bi.Name() == "cap") {
+					continue
+				}
+				return false
+			case *ssa.Send, *ssa.Go, *ssa.Defer, *ssa.MapUpdate, *ssa.Select, *ssa.Panic, *ssa.RunDefers:
+				if _, isRD := in.(*ssa.RunDefers); isRD {
+					continue
+				}
+				return false
+			}
+		}
+		return true
+	}
+	// nilTest: block b ends in a test of a "present" value against nil; the
+	// index of the successor taken when it is nil, or -1
+	nilTest := func(b *ssa.BasicBlock) int {
+		if len(b.Instrs) == 0 || len(b.Succs) != 2 {
+			return -1
+		}
+		iff, ok := b.Instrs[len(b.Instrs)-1].(*ssa.If)
+		if !ok {
+			return -1
+		}
+		bo, ok := iff.Cond.(*ssa.BinOp)
+		if !ok || (bo.Op != token.EQL && bo.Op != token.NEQ) {
+			return -1
+		}
+		var v ssa.Value
+		switch {
+		case IsNil(bo.Y):
+			v = bo.X
+		case IsNil(bo.X):
+			v = bo.Y
+		default:
+			return -1
+		}
+		if !source(v) {
+			return -1
+		}
+		// an error that is nil is the ordinary case, not a missing input
+		if types.Identical(v.Type(), types.Universe.Lookup("error").Type()) {
+			return -1
+		}
+		if bo.Op == token.NEQ {
+			return 1
+		}
+		return 0
+	}
+	// allNilTests: every way into s is the nil edge of such a test (the body
+	// of `if a == nil || b == nil { .. }`)
+	allNilTests = func(s *ssa.BasicBlock) bool {
+		for _, p := range s.Preds {
+			k := nilTest(p)
+			if k < 0 || p.Succs[k] != s {
+				return false
+			}
+		}
+		return len(s.Preds) > 0
+	}
+	for _, b := range fn.Blocks {
+		nilSucc := nilTest(b)
+		if nilSucc < 0 {
+			continue
+		}
+		// the region behind the nil edge
+		s := b.Succs[nilSucc]
+		okRegion := true
+		for depth := 0; depth < 4 && okRegion; depth++ {
+			if len(s.Preds) > 1 && !(depth == 0 && allNilTests(s)) {
+				// straight to a join: only the next round of the enclosing
+				// loop (`continue`) is a way out; skipping an optional step
+				// (`if cb != nil { cb() }`) is not a guard clause
+				if !(depth > 0 || s.Dominates(b)) {
+					okRegion = false
+				}
+				break
+			}
+			if !benign(s) {
+				okRegion = false
+				break
+			}
+			last := s.Instrs[len(s.Instrs)-1]
+			if _, isRet := last.(*ssa.Return); isRet {
+				break
+			}
+			if _, isJump := last.(*ssa.Jump); !isJump {
+				// a further test inside the guard: too much for a guard clause
+				okRegion = false
+				break
+			}
+			t := s.Succs[0]
+			if len(t.Preds) > 1 {
+				// a join with the ordinary flow (next iteration, code
+				// behind the if): nothing else happened on the way
+				break
+			}
+			s = t
+		}
+		if okRegion {
+			cut[Edge{b, nilSucc}] = true
+		}
+	}
+	return cut
 }
